@@ -538,6 +538,36 @@ func (in *interp) convScalar(x *Sym, kd types.BasicKind) value {
 // The model is compared with the native build in the engine self-test.
 func (in *interp) floatToInt(f *Term, ws int, kd types.BasicKind) *Term {
 	tp := in.tp
+	if f.Op == OpIte {
+		return tp.Ite(f.Args[0], in.floatToInt(f.Args[1], ws, kd), in.floatToInt(f.Args[2], ws, kd))
+	}
+	if x, eff, ok := tp.intView(f); ok && !f.IsConst() {
+		// exact integer: the hardware conversion is the integer itself when it fits, else the indefinite value
+		cvtI := func(w int) *Term {
+			if eff <= w {
+				return tp.resizeSigned(x, w)
+			}
+			W := x.Sort.W
+			lo := tp.BV(uint64(int64(-1)<<uint(w-1)), W)
+			hi := tp.BV(uint64(int64(1)<<uint(w-1)-1), W)
+			inRange := tp.And(tp.bvCmp(OpBVSle, lo, x), tp.bvCmp(OpBVSle, x, hi))
+			return tp.Ite(inRange, tp.Extract(w-1, 0, x), tp.BV(uint64(1)<<uint(w-1), w))
+		}
+		switch kd {
+		case types.Int64, types.Int:
+			return cvtI(64)
+		case types.Int32:
+			return cvtI(32)
+		case types.Int16, types.Int8, types.Uint16, types.Uint8:
+			return tp.Extract(kindWidth(kd)-1, 0, cvtI(32))
+		case types.Uint32:
+			return tp.Extract(31, 0, cvtI(64))
+		case types.Uint64, types.Uint, types.Uintptr:
+			if eff <= 63 {
+				return cvtI(64) // |x| < 2^62: below 2^63, plain conversion
+			}
+		}
+	}
 	cvt := func(f *Term, w int) *Term {
 		// hardware truncating conversion to signed w-bit with indefinite value
 		lim := float64(uint64(1) << uint(w-1))
